@@ -127,7 +127,8 @@ func c09Shapes() []Shape {
 	add("top-level-code-of-import-calls-private-function", 2, func(cl []string) (*Program, map[string]*Program) {
 		a := Prog(hashMarker(cl[0], 0), Fn("World", nil, []Type{TString}, Ret(S("world"))), Pr(S("init a"), Call("World")))
 		b := Prog(hashMarker(cl[1], 1), Fn("setup", []ParamDecl{Pm("v", TInt)}, []Type{TInt}, Ret(Op("+", V("v"), N(1)))),
-			Fn("Public", nil, []Type{TInt}, Ret(N(2))), Pr(S("init b"), Call("setup", N(4))))
+			Fn("openLog", nil, []Type{TString}, Ret(S("log"))), Fn("third", nil, []Type{TInt}, Ret(N(3))),
+			Fn("Public", nil, []Type{TInt}, Ret(N(2))), Pr(S("init b"), Call("setup", N(4)), Call("openLog"), Call("third")))
 		return withImports(Prog(Pr(ACall("a", "World"), ACall("b", "Public"))), Import{"a", "a.tsh"}, Import{"b", "b.tsh"}),
 			map[string]*Program{"a.tsh": a, "b.tsh": b}
 	}, false)
@@ -156,8 +157,8 @@ func c09Shapes() []Shape {
 	}, false)
 	add("diamond", 3, func(cl []string) (*Program, map[string]*Program) {
 		c := Prog(hashMarker(cl[2], 2), Fn("Base", []ParamDecl{Pm("v", TInt)}, []Type{TInt}, Ret(Op("+", V("v"), N(1)))), Pr(S("init c")))
-		a := withImports(Prog(hashMarker(cl[0], 0), Fn("A", []ParamDecl{Pm("v", TInt)}, []Type{TInt}, Ret(ACall("c", "Base", V("v"))))), Import{"c", "c.tsh"})
-		b := withImports(Prog(hashMarker(cl[1], 1), Fn("B", []ParamDecl{Pm("v", TInt)}, []Type{TInt}, Ret(Op("*", ACall("c", "Base", V("v")), N(2))))), Import{"c", "c.tsh"})
+		a := withImports(Prog(hashMarker(cl[0], 0), Pr(S("init a")), Fn("A", []ParamDecl{Pm("v", TInt)}, []Type{TInt}, Ret(ACall("c", "Base", V("v")))), Pr(S("init a2"), Call("A", N(1)))), Import{"c", "c.tsh"})
+		b := withImports(Prog(hashMarker(cl[1], 1), Pr(S("init b")), Fn("B", []ParamDecl{Pm("v", TInt)}, []Type{TInt}, Ret(Op("*", ACall("c", "Base", V("v")), N(2)))), Pr(S("init b2"), Call("B", N(1)))), Import{"c", "c.tsh"})
 		return withImports(Prog(Pr(ACall("a", "A", L(0)), ACall("b", "B", L(1)))), Import{"a", "a.tsh"}, Import{"b", "b.tsh"}),
 			map[string]*Program{"a.tsh": a, "b.tsh": b, "c.tsh": c}
 	}, false)
